@@ -8,6 +8,20 @@ from .common import errname
 #: formats that have a Lean model (Model/Formats/*); grows as families are added
 MODELLED = ["md5_crypt", "apr_md5_crypt", "sha256_crypt", "sha512_crypt"]
 
+#: the `Static` family (Model/Formats/Static.lean)
+STATIC = ["hex_md4", "hex_md5", "hex_sha1", "hex_sha256", "hex_sha512", "nthash", "lmhash", "bsd_nthash", "msdcc", "msdcc2",
+          "mysql323", "mysql41", "oracle10", "oracle11", "postgres_md5", "mssql2000", "mssql2005", "ldap_md5", "ldap_sha1",
+          "ldap_salted_md5", "ldap_salted_sha1", "ldap_salted_sha256", "ldap_salted_sha512", "ldap_plaintext", "plaintext",
+          "roundup_plaintext", "ldap_hex_md5", "ldap_hex_sha1", "ldap_md5_crypt", "ldap_sha256_crypt", "ldap_sha512_crypt",
+          "cisco_pix", "cisco_asa", "cisco_type7", "htdigest", "unix_disabled", "django_disabled"]
+MODELLED += STATIC
+
+#: formats whose `identify` is compared with the model as well (`fmt identify`)
+IDENTIFY_CHECKED = ["md5_crypt", "apr_md5_crypt", "sha256_crypt", "sha512_crypt"] + STATIC
+
+#: handlers that are not GenericHandlers: their "parse" is the validation `verify` applies to the stored string
+WHOLE = ("plaintext", "ldap_plaintext", "unix_disabled", "htdigest")
+
 
 def cps(s) -> str:
     if isinstance(s, bytes):
@@ -30,23 +44,71 @@ def extras(name, obj) -> list[tuple[str, str]]:
     return out
 
 
+def is_wrapper(h) -> bool:
+    import passlib.utils.handlers as uh
+
+    return isinstance(h, uh.PrefixWrapper)
+
+
 def dump(name, obj) -> str:
     h = handler(name)
     ident = getattr(obj, "ident", None) or ""
     rounds = getattr(obj, "rounds", None)
     salt = getattr(obj, "salt", None)
+    if isinstance(salt, int) and not isinstance(salt, bool):
+        salt = bytes([salt])          # cisco_type7: the salt is an integer 0..52
     chk = obj.checksum
     ex = extras(name, obj)
     o = lambda v: "N" if v is None else cps(v)
     return f"{cps(ident)} {'N' if rounds is None else rounds} {o(salt)} {o(chk)} " + (";".join(f"{k}={v}" for k, v in ex) or "-")
 
 
+def whole_validate(name, s) -> str:
+    """plaintext / ldap_plaintext / unix_disabled / htdigest have no from_string: run the validation the real
+    `verify` applies to the stored string (InvalidHashError / MalformedHashError are ValueErrors) and return it"""
+    h = handler(name)
+    if name == "htdigest":
+        r = h._norm_hash(s)
+        h.verify("", s, "user", "realm")
+        return r
+    h.verify("", s)                   # raises InvalidHashError when the string is not one of theirs
+    return s
+
+
 def parse_dump(name, s) -> str:
-    return dump(name, handler(name).from_string(s))
+    h = handler(name)
+    if is_wrapper(h):
+        return parse_dump(h.wrapped.name, h._unwrap_hash(s))
+    if name in WHOLE:
+        return f"- N N {cps(whole_validate(name, s))} -"
+    return dump(name, h.from_string(s))
+
+
+def reparse_str(name, s) -> str:
+    h = handler(name)
+    if is_wrapper(h):
+        return h._wrap_hash(reparse_str(h.wrapped.name, h._unwrap_hash(s)))
+    if name in WHOLE:
+        return whole_validate(name, s)
+    return h.from_string(s).to_string()
 
 
 def reparse(name, s) -> str:
-    return cps(handler(name).from_string(s).to_string())
+    return cps(reparse_str(name, s))
+
+
+def identify(name, s) -> str:
+    return "1" if handler(name).identify(s) else "0"
+
+
+def ctx_kwds(h) -> dict:
+    ck = getattr(h, "context_kwds", ()) or ()
+    kw = {}
+    if "user" in ck:
+        kw["user"] = "user"
+    if "realm" in ck:
+        kw["realm"] = "realm"
+    return kw
 
 
 def cheap(h):
@@ -63,12 +125,18 @@ def cheap(h):
     return h
 
 
-def gen_hashes(name, rng, n=6):
+def gen_hashes(name, rng, n=6, vary_secret=False):
     """hash strings over the settings space of the format (cheap costs)"""
     h = handler(name)
     out = []
+    ck = ctx_kwds(h)
     for _ in range(n):
         kw = {}
+        secret = "pw"
+        if name in STATIC and vary_secret:
+            secret = "".join(rng.choice("abcXYZ019 é") for _ in range(rng.randrange(0, 12)))
+        if name == "cisco_type7" and vary_secret and rng.random() < 0.7:
+            kw["salt"] = rng.randrange(0, 53)
         if "rounds" in h.setting_kwds:
             lo = h.min_rounds
             kw["rounds"] = rng.choice([lo, lo + 1, 5000 if lo <= 5000 <= (h.max_rounds or 5000) and h.rounds_cost != "log2" else lo, lo + rng.randrange(0, 2000)]) if h.rounds_cost != "log2" else rng.choice([lo, lo + 1])
@@ -80,10 +148,10 @@ def gen_hashes(name, rng, n=6):
         if getattr(h, "ident_values", None):
             kw["ident"] = rng.choice(h.ident_values)
         try:
-            out.append(h.using(**kw).hash("pw"))
+            out.append(h.using(**kw).hash(secret, **ck))
         except Exception:  # noqa: BLE001
             try:
-                out.append(h.hash("pw"))
+                out.append(h.hash("pw", **ck))
             except Exception:  # noqa: BLE001
                 pass
     return out
@@ -100,7 +168,70 @@ def variants(h, name, s, rng):
         out.append(hd.using(rounds=5000).hash("pw"))
         x = hd.using(rounds=5000).hash("pw")
         out.append(x[:3] + "rounds=5000$" + x[3:])
+    if name in STATIC:
+        out += static_variants(name, s, rng)
     return out
+
+
+def static_variants(name, s, rng):
+    """well-formed forms of the Static family beyond what the hasher itself emits: the other letter case, a final
+    newline (accepted by `$` of the regex based parsers), non-canonical base64 tails, unusual salts"""
+    import base64
+
+    out = [s.upper(), s.lower(), s.swapcase(), s + "\n"]
+    if name.startswith("ldap_salted_"):
+        ident, body = s[:s.index("}") + 1], s[s.index("}") + 1:]
+        raw = base64.b64decode(body)
+        h = handler(name)
+        cs = h.checksum_size
+        for n in (4, 5, 6, 15, 16, rng.randrange(4, 17)):
+            salt = bytes(rng.randrange(256) for _ in range(n))
+            out.append(ident + base64.b64encode(raw[:cs] + salt).decode())
+        stripped = body.rstrip("=")
+        out += [ident + stripped + "==", ident + stripped + "=", ident + stripped]
+        # non-zero unused bits in the last character of a tail
+        if len(stripped) % 4 in (2, 3):
+            alpha = "ABCDEFGHIJKLMNOPQRSTUVWXYZabcdefghijklmnopqrstuvwxyz0123456789+/"
+            k = alpha.index(stripped[-1])
+            out.append(ident + stripped[:-1] + alpha[k | 1] + body[len(stripped):])
+    if name == "cisco_type7":
+        out += ["00", "52", "53", "07" + s[2:], " 7" + s[2:], "+7" + s[2:], "-1" + s[2:], "1_" + s[2:], "٣٣" + s[2:], "7" , "0" + s[2:].lower(), s[:2]]
+    if name in ("ldap_md5", "ldap_sha1"):
+        out += [s[:5], s[:5] + "=", s[:5] + "AAAA", s[:5] + s[5:] * 2]
+    if name == "django_disabled":
+        out += ["!", "!" + "é" * 3, "!!"]
+    if name == "unix_disabled":
+        out += ["", "*", "!", "!abc", "*$1$abc$def", "x", " !", "!\n", "é"]
+    if name in ("plaintext", "ldap_plaintext", "roundup_plaintext"):
+        pre = "{plaintext}" if name == "roundup_plaintext" else ""
+        out += [pre + x for x in ("", "pw", "{x}", "{x}y", "{xy", "{}", "{}y", "{é٣_}z", "{x}y\n", "{x}y\nz", "{x}\n\n", "{x y}z", "{x}{y}", " {x}y", "{X1_}", "{x\n}", "\n", "{-}")]
+    return out
+
+
+def extra_mutants(name, s, rng, n=12):
+    """mutants aimed at the case normalisation of the Static family: single letters flipped, code points whose
+    str.upper()/str.lower() is ASCII (ﬀ→FF, ſ→S, K→k, ı→I, İ→i̇), final sigma"""
+    if name not in STATIC:
+        return []
+    out = set()
+    special = ["\ufb00", "\u017f", "\u212a", "\u0131", "\u0130", "\u03a3", "\u00df", "\ufb01", "a\u03a3", "\u1e9e"]
+    for _ in range(n):
+        if not s:
+            break
+        i = rng.randrange(len(s))
+        k = rng.randrange(5)
+        if k == 0:
+            out.add(s[:i] + s[i].swapcase() + s[i + 1:])
+        elif k == 1:
+            out.add(s[:i] + rng.choice(special) + s[i + 1:])
+        elif k == 2:
+            out.add(s[:i] + rng.choice(special) + s[i + 2:])      # two characters replaced by one (ﬀ upper-cases to two)
+        elif k == 3:
+            out.add(s[:i] + rng.choice("gGzZ") + s[i + 1:])
+        else:
+            out.add(s[:i] + rng.choice(special) + s[i:])
+    out |= {s.swapcase(), s + "\n\n", "\n" + s, s[:-1] + "\n" if s else "\n", s.title()}
+    return sorted(out)
 
 
 def mutants(s, rng, n=40):
